@@ -78,17 +78,27 @@ def strategy(shard):
                     if set(E) != set(order[:k]) or k == n - 1:
                         nen.append([c, sorted(E), draw(st.booleans())])
         # distinct tuples
+        # distinct tuples; the same statement may be listed twice with different confirmation flags (both tags are due)
         seen, neb2, nen2 = set(), [], []
         for a in neb:
-            if (a[0], a[1]) not in seen:
-                seen.add((a[0], a[1]))
+            if (a[0], a[1], a[2]) not in seen:
+                seen.add((a[0], a[1], a[2]))
                 neb2.append(a)
         for a in nen:
-            k = (a[0], tuple(a[1]))
+            k = (a[0], tuple(a[1]), a[2])
             if k not in seen:
                 seen.add(k)
                 nen2.append(a)
-        return {"cands": cands, "winner": winner, "root": root, "neb": neb2, "nen": nen2, "via_json": draw(st.booleans())}
+        if nen2 and draw(st.integers(0, 3)) == 0:
+            a = draw(st.sampled_from(nen2))
+            twin = [a[0], list(a[1]), not a[2]]
+            if (twin[0], tuple(twin[1]), twin[2]) not in seen:
+                nen2.append(twin)
+        # (the audit log keys assertions by their label, so it cannot hold the same statement twice: such lists are
+        # passed to the tree builder directly)
+        labels = [(a[0], a[1]) for a in neb2] + [(a[0], tuple(a[1])) for a in nen2]
+        via_json = draw(st.booleans()) and len(set(labels)) == len(labels)
+        return {"cands": cands, "winner": winner, "root": root, "neb": neb2, "nen": nen2, "via_json": via_json}
 
     return case()
 
